@@ -107,6 +107,21 @@ def fold_at_call_sites(model: Model, folder: Folder, fi, expr: ast.expr, self_cl
     return vals if n_sites else None
 
 
+def stored_constructor_tag(model: Model, cls: str, attr: str) -> bool:
+    """self.<attr> is only ever bound, in the class's __init__, to the constructor's own `tag` parameter"""
+    stores = []
+    for c in model.classes[cls].mro:
+        ci = model.classes.get(c)
+        for m in (ci.methods.values() if ci else ()):
+            for n in walk_no_nested(m.node):
+                if isinstance(n, (ast.Assign, ast.AnnAssign, ast.AugAssign)):
+                    for t_ in (n.targets if isinstance(n, ast.Assign) else [n.target]):
+                        if isinstance(t_, ast.Attribute) and t_.attr == attr and isinstance(t_.value, ast.Name) and t_.value.id == "self":
+                            stores.append((m, n))
+    return bool(stores) and all(m.name == "__init__" and isinstance(n, (ast.Assign, ast.AnnAssign)) and isinstance(n.value, ast.Name) and n.value.id == "tag"
+                                and "tag" in m.params() for m, n in stores)
+
+
 def check_tags(model: Model, run: Run, folder: Folder) -> bool:
     ok_all = True
     sites = writer_tag_sites(model, folder)
@@ -139,6 +154,8 @@ def check_tags(model: Model, run: Run, folder: Folder) -> bool:
             try:
                 if isinstance(tag, ast.Name) and tag.id == "tag":
                     continue     # pass-through of the caller's tag parameter (checked at that caller)
+                if isinstance(tag, ast.Attribute) and isinstance(tag.value, ast.Name) and tag.value.id == "self" and fi.cls and stored_constructor_tag(model, fi.cls, tag.attr):
+                    continue     # the tag the object was constructed with (checked where it is constructed)
                 if isinstance(tag, ast.Name) and tag.id not in fi.params():
                     # a local bound exactly once: judge its definition
                     binds = [a.value for a in walk_no_nested(fi.node) if isinstance(a, (ast.Assign, ast.AnnAssign)) and a.value is not None and
